@@ -809,7 +809,9 @@ def compare_steps(ctx, case, mode, run, fval, leg):
     times = [unfbits(x[1]) for x in fval]
     # python execution performs the IEEE operations of the source one by one: bit-exact.  The compiled
     # loop is built with LLVM fast-math flags (contract, reassoc): a few ulp.
-    same = (lambda x, y: x == y) if mode != "jit" else (lambda x, y: abs(x - y) <= 1e-15 * abs(y))
+    # (relative to the largest time of the run: `t_start + i*dt` cancels when the returned time is near zero)
+    tmag = max([abs(b) for seg in case["segments"] for b in seg] + [abs(case["dt"])])
+    same = (lambda x, y: x == y) if mode != "jit" else (lambda x, y: abs(x - y) <= 4e-15 * max(abs(y), tmag))
     if case["via"] == "solve":
         ok = run["segments"][0]["steps"] == sum(counts) and same(run["segments"][0]["t"], times[-1])
         impl = {"steps": run["segments"][0]["steps"], "t": run["segments"][0]["t"]}
@@ -835,6 +837,13 @@ def compare_fixed(ctx, case, mode, run, msegs, merr, leg, float_counts=None):
     if merr is not None or run["error"] is not None:
         ok = (merr == "convergence" and run["error"] is not None and run["error"]["type"] == "ConvergenceError"
               and (case["via"] == "solve" or run["error"]["segment"] == len(msegs)))
+        if (not ok and merr is None and run["error"] is not None and run["error"]["type"] == "ConvergenceError"
+                and msegs and case.get("maxerror", 1.0) <= 1e-13 * _scale(case, [s_["state"] for s_ in msegs])):
+            # the requested accuracy of the fixed-point iteration lies below the resolution of doubles at the size of
+            # the state: the exact model converges, the iterates of the real code stall at round-off and the code
+            # reports non-convergence - loud, and not a difference of the schemes
+            ctx.hist("outcome", "ConvergenceError below float resolution (maxerror < 1e-13 |state|)")
+            return None
         if not ok:
             ctx.disagree(leg, rec, {"error": merr, "segments_done": len(msegs)}, {"error": run["error"]},
                          "error behaviour differs")
